@@ -19,6 +19,7 @@ package kv
 
 //@ func json.Unmarshal<*kv.Update>
 //@   assumed
+//@   typefact plainjson kv.Update      // the round-trip contract presumes every field travels unconditionally
 //@   params data, v
 //@   results err
 //@   ensures err == nil ==> asType(v, *kv.Update).Op == updOf(data).Op && asType(v, *kv.Update).KVPair == updOf(data).KVPair
@@ -26,6 +27,7 @@ package kv
 
 //@ func json.Marshal<kv.Pair>
 //@   assumed
+//@   typefact plainjson kv.Pair      // the round-trip contract presumes every field travels unconditionally
 //@   params v
 //@   results data, err
 //@   ensures err == nil && fresh(data) && pairOf(data) == asType(v, kv.Pair)
@@ -34,6 +36,7 @@ package kv
 // Unmarshal into a map keeps the entries a non-nil map already has and adds the image's.
 //@ func json.Unmarshal<*map[string]kv.Pair>
 //@   assumed
+//@   typefact plainjson kv.Pair      // the round-trip contract presumes every field travels unconditionally
 //@   params data, v
 //@   results err
 //@   requires *asType(v, *gomap[string]kv.Pair) != nil
@@ -44,6 +47,7 @@ package kv
 
 //@ func json.Marshal<map[string]kv.Pair>
 //@   assumed
+//@   typefact plainjson kv.Pair      // the round-trip contract presumes every field travels unconditionally
 //@   params v
 //@   results data, err
 //@   ensures err == nil ==> fresh(data) && forall k string :: imgHas(bytesOf(data), k) == has(asType(v, gomap[string]kv.Pair), k) && (has(asType(v, gomap[string]kv.Pair), k) ==> imgGet(bytesOf(data), k) == asType(v, gomap[string]kv.Pair)[k])
@@ -238,12 +242,14 @@ package kv
 //@ initfact ErrVersionMismatch : ErrVersionMismatch != nil
 //@ func json.Marshal<kv.Update>
 //@   assumed
+//@   typefact plainjson kv.Update      // the round-trip contract presumes every field travels unconditionally
 //@   params v
 //@   results data, err
 //@   ensures err == nil && fresh(data) && updOf(data) == asType(v, kv.Update)
 //@   modifies nothing
 //@ func json.Unmarshal<*kv.Pair>
 //@   assumed
+//@   typefact plainjson kv.Pair      // the round-trip contract presumes every field travels unconditionally
 //@   params data, v
 //@   results err
 //@   ensures err == nil ==> *asType(v, *kv.Pair) == pairOf(data)
@@ -270,3 +276,37 @@ package kv
 //@   ensures [C13.client.delete+C14+C15] err == nil ==> r.NodeHost.lastErr == nil && r.NodeHost.lastRes.Value != 2
 //@   modifies r.NodeHost.lastRes, r.NodeHost.lastErr, r.NodeHost.lastCmd, r.NodeHost.nelem, r.NodeHost.nseq
 //@   dead return 1
+
+// ---------------------------------------------------------------- directory listings: path helpers (C13)
+
+// List / ListDir themselves (map iteration over string processing) stay ASSUMED; the helpers they
+// share are under contract: the caller's path is canonicalised before it is split, term prefixes are
+// compared element by element, and a key is stripped of exactly the prefix and one separator.
+//@ import strings "strings"
+//@ import path "path"
+//@ uninterp func cleanP(p string) string
+//@ uninterp func trimP(s string, prefix string) string
+//@ uninterp func splitSrc(t Slice) string
+//@ uninterp func splitSep(t Slice) string
+//@ func path.Clean
+//@   assumed
+//@   ensures result == cleanP(path)
+//@   modifies nothing
+//@ func strings.Split
+//@   assumed
+//@   ensures fresh(result) && splitSrc(result) == s && splitSep(result) == sep      // the result remembers what it was split from
+//@   modifies nothing
+//@ func strings.TrimPrefix
+//@   assumed
+//@   ensures result == trimP(s, prefix)
+//@   modifies nothing
+//@ func pathToTerms
+//@   ensures [C13.list.clean] splitSrc(result) == cleanP(filePath) && splitSep(result) == "/"
+//@   modifies nothing
+//@ func stripKey
+//@   ensures [C13.list.strip] result == trimP(trimP(key, prefix), "/")
+//@   modifies nothing
+//@ func samePrefixTerms
+//@   ensures [C13.list.prefix] result == (len(test) >= len(prefix) && forall j int :: 0 <= j && j < len(prefix) ==> prefix[j] == test[j])
+//@   modifies nothing
+//@   loop 0 invariant 0 <= i && i <= len(prefix) && len(test) >= len(prefix) && forall j int :: 0 <= j && j < i ==> prefix[j] == test[j]
